@@ -116,6 +116,18 @@ TranslationInvariant ==
            /\ \A k \in 1..K : Fraction(d2, c2, k) = weights[k]
            /\ \A k \in 1..K, j \in 1..Dm : MembersD(data, cent, k) # {} => BiasedVar(d2, c2, k, j) = variances[k][j]
 
+\* a change of units x -> s*x (data and centroids) multiplies distances and variances by s^2 and leaves
+\* labels and weights unchanged (used by the harness to run the implementation in very small / large units)
+Scaled(d, sc) == [i \in DOMAIN d |-> [j \in 1..Dm |-> sc * d[i][j]]]
+ScaleEquivariant ==
+    phase \in {"red", "gmm"} => \A sc \in Shifts \ {0} :
+        LET d2 == Scaled(data, sc)
+            c2 == Scaled(cent, sc)
+            s2 == R(sc * sc)
+        IN /\ \A k \in 1..K, i \in Idx : SqD(d2, c2, i, k) = Mul(s2, dists[k][i])
+           /\ \A k \in 1..K : Fraction(d2, c2, k) = weights[k]
+           /\ \A k \in 1..K, j \in 1..Dm : MembersD(data, cent, k) # {} => BiasedVar(d2, c2, k, j) = Mul(s2, variances[k][j])
+
 \* ---------------- export (terminal states)
 Export == phase = "gmm" =>
     PrintT(ToJson([data |-> data, comp |-> comp, cent |-> cent, dists |-> dists, labels |-> labels,
